@@ -271,7 +271,7 @@ Definition sys_wr (cid : Z) (fd : Z) (src : list Z) (exact : bool) (w : world) :
       let w2 := emit (obs "wdata" [ABytes offered]) w' in
       if n <? 0 then
         match rest with
-        | ASym e :: _ => (KErr e, if is_eagain e then w2 else ghost "fail" cid [] w2)
+        | ASym e :: _ => (KErr e, if is_eagain e then ghost "eagain" cid [] w2 else ghost "fail" cid [] w2)
         | _ => (KErr "err", ghost "fail" cid [] w2)
         end
       else (KOk n [], ghost "hand" cid (ztake n offered) w2)
@@ -511,7 +511,7 @@ with el_write (fuel : nat) (cid : Z) (sent : Z) (w : world) {struct fuel} : res 
           | _ =>
             if et then
               if sent' <? l_chunk (st w2) then el_write f cid sent' w2
-              else trigger false (TWrite0 cid) w2
+              else trigger false (TWrite0 cid) (ghost "rearm-write" cid [] w2)
             else (RNil, w2)
           end
       end
@@ -729,7 +729,7 @@ Fixpoint el_read (fuel : nat) (cid : Z) (recv : Z) (w : world) {struct fuel} : r
             if c_eof c5 || (l_et (st w5) && (recv' <? l_chunk (st w5)))
             then el_read f cid recv' w5
             else if l_et (st w5) && (n =? l_bufcap (st w5))
-                 then trigger true (TRead0 cid) w5
+                 then trigger true (TRead0 cid) (ghost "rearm-read" cid [] w5)
                  else (RNil, w5)
           end
     end
@@ -755,7 +755,7 @@ Definition el_open (fuel : nat) (cid : Z) (w : world) : res * world :=
     | None => (true, w3)
     | Some data =>
       let c3 := wc w3 cid in
-      let w3 := if c_udp c3 then w3 else ghost "openreply" cid [] (ghost "sub" cid data w3) in
+      let w3 := if c_udp c3 then w3 else ghost "sub" cid data w3 in
       if c_udp c3 && negb (c_remote c3) then
         match sys "sendto" [AInt (c_fd c3); ABytes data; bool_arg false] w3 with
         | (KErr _, w') => (false, w')
@@ -791,8 +791,7 @@ Definition el_open (fuel : nat) (cid : Z) (w : world) : res * world :=
              end
            end) (S (List.length (inp w3))) data w3
     end in
-  let w4 := ghost "openreply-end" cid [] w4 in
-  if negb ok then (RErr, w4)
+  if negb ok then el_close fuel cid false w4      (* the reply could not be written: close, report through OnClose *)
   else
     let c4 := wc w4 cid in
     let '(r5, w5) :=
@@ -807,7 +806,7 @@ Definition el_open (fuel : nat) (cid : Z) (w : world) : res * world :=
       | AClose => el_close fuel cid true w5
       | AShutdown => (RShutdown, w5)
       end
-    | r => (r, w5)
+    | _ => el_close fuel cid false w5             (* write interest could not be registered: close *)
     end.
 
 (* el.register0 *)
@@ -910,17 +909,29 @@ Definition el_accept (fuel : nat) (lfd : Z) (is_udp : bool) (w : world) : res * 
     end.
 
 (* one ready event *)
+(* The poll_opt build (poller_epoll_ultimate.go, reactor_ultimate.go) dispatches through the
+   attachment stored with the epoll registration instead of a registry lookup.  The build
+   variant is part of the configuration: it is encoded as the pseudo-listener -1 in the
+   `listen` lines (no descriptor is negative). *)
+Definition polopt (s : lstate) : bool :=
+  match alookup (-1) (l_listeners s) with Some _ => true | None => false end.
+
 Definition dispatch (fuel : nat) (fd ev : Z) (w : world) : res * world :=
   match alookup fd (l_reg (st w)) with
   | Some cid =>
       (* default build: every registered connection -- a client's connected UDP socket
-         included -- is served through conn.processIO (the readUDP attachment callback is
-         only used by the poll_opt build) *)
-      process_io fuel cid ev w
+         included -- is served through conn.processIO; poll_opt: a datagram connection's
+         attachment callback is el.readUDP *)
+      if polopt (st w) && c_udp (wc w cid) then el_read_udp fuel fd false w
+      else process_io fuel cid ev w
   | None =>
       match alookup fd (l_listeners (st w)) with
       | Some is_udp => el_accept fuel fd is_udp w
-      | None => epctl "del" fd false false w   (* stale event *)
+      | None =>
+          (* an event for a connection closed earlier in this batch.  default build: the registry
+             lookup fails, "stale event", epoll_ctl(DEL); poll_opt: conn.processIO runs on the
+             closed connection, where every path is guarded by `opened`: nothing happens *)
+          if polopt (st w) then (RNil, w) else epctl "del" fd false false w
       end
   end.
 
@@ -1051,6 +1062,10 @@ Fixpoint polling (fuel : nat) (w : world) : world :=
   | S f =>
     (* between events: the size of the registry is what Engine.CountConnections reports *)
     let w := emit ("g", [ASym "count"; AInt (zlen (l_reg (st w))); ABytes []]) w in
+    (* ... and what every registered connection still has to send (for the progress checkers) *)
+    let w := fold_left (fun w fc => if c_udp (wc w (snd fc)) then w else
+                                    emit ("g", [ASym "pending"; AInt (snd fc); AInt (fst fc);
+                                                AInt (zlen (c_out (wc w (snd fc))))]) w) (l_reg (st w)) w in
     match pull w with
     | (None, w1) => w1
     | (Some ("wait", evs), w1) =>
